@@ -51,7 +51,7 @@ theorem cache_skeleton : cacheAccesses = [("read", "mpathOpCache", "query", ""),
     ("read", "cueValueCache", "cueFile", ""), ("write", "cueValueCache", "cueFile", "rootValue")] := by decide
 theorem cache_values_are_functions_of_their_keys : cacheComputes = [("op", "ParseString", "query"), ("rootValue", "ctx.CompileString", "cueFile")] := by decide
 theorem shared_writes_only_in_CueValidate : packageVarWrites = ["cueValueCache in CueValidate", "mpathOpCache in CueValidate"] := by decide
-theorem package_state : packageVars = ["ErrKeyNotFound", "cueValidateMutex", "cueValueCache", "funcMap", "functionTypeByName", "invalidRunes", "mpathOpCache", "scannerPool"] := by decide
+theorem package_state : packageVars = ["ErrKeyNotFound", "cueValidateMutex", "cueValueCache", "decimalType", "funcMap", "functionTypeByName", "invalidRunes", "mpathOpCache", "scannerPool"] := by decide
 
 /-! ### C15: the closure loop uses a visited set, no goto; the base paths -/
 theorem closure_shape : closureUsesVisitedSet = true ∧ closureUsesGoto = false := by decide
